@@ -214,3 +214,26 @@ fn k01_save_conflicts() {
     std::mem::forget(w);
     std::mem::forget(l);
 }
+
+// constructors / observers for harnesses living in other modules (State's fields are private to this module)
+impl State {
+    pub(crate) fn verif_mk(items: Vec<Arg>, item_state: Vec<ItemState>, start: usize, end: usize) -> State {
+        let remaining = count_present(&item_state, start, end);
+        State {
+            items: items.into(),
+            item_state,
+            remaining,
+            current: None,
+            path: Vec::new(),
+            #[cfg(feature = "autocomplete")]
+            comp: None,
+            scope: start..end,
+        }
+    }
+    pub(crate) fn verif_ledger(&self) -> &[ItemState] {
+        &self.item_state
+    }
+    pub(crate) fn verif_remaining(&self) -> usize {
+        self.remaining
+    }
+}
